@@ -21,7 +21,7 @@ RULE = ("random removal-enabled temporal graphs of both classes (3-6 nodes, <= 7
 MIN = {"quick": {"dag:acyclic": 20000, "edge:sound": 100000, "sources==expected": 20000, "invalid-window": 4000},
        "thorough": {"dag:acyclic": 400000, "edge:sound": 2000000, "sources==expected": 400000, "invalid-window": 80000}}
 REQUIRED_CELLS = {t: ("class:DynGraph", "class:DynDiGraph", "ids:int", "ids:str", "window:inside", "window:default",
-                      "invalid:start<first", "invalid:end>last", "invalid:start>end", "empty-graph", "second-life", "long-timeline")
+                      "invalid:start<first", "invalid:end>last", "invalid:start>end", "empty-graph", "second-life", "long-timeline", "root:isolated", "target:aliased")
                   for t in ("quick", "thorough")}
 
 
@@ -117,6 +117,28 @@ def one_graph(ctx, dn, G, m, nodes, strings, exhaustive):
                 ctx.cell("window:" + kind)
                 check(ctx, al, G, m, u, v, s, e, conv)
     invalid(ctx, al, G, m, rng.choice([n for n in nodes if n in m.nodes]))
+    # a root that is in the graph but never interacts: invalid windows are still invalid
+    lonely = "lonely" if strings else 9999
+    G.add_node(lonely)
+    ctx.cell("root:isolated")
+    invalid(ctx, al, G, m, lonely)
+    if not strings:
+        # an equal-but-differently-printed target (2.0 for 2, True for 1): whatever is returned as a target must
+        # be a node of the DAG
+        inside = [n for n in nodes if n in m.nodes]
+        for u in inside[:2]:
+            for v in inside[:3]:
+                alias = True if v == 1 else float(v)
+                try:
+                    DG, sources, targets, _a, _b = al.temporal_dag(G, u, alias)
+                except Exception as ex:
+                    if raised_in_library(ex):
+                        ctx.violation("raised", dict(u=u, v=alias, exception=repr(ex)))
+                        continue
+                    raise
+                ctx.cell("target:aliased")
+                ctx.expect("sources+targets in DAG", sorted(x for x in set(sources) | set(targets) if x not in DG), [],
+                           dict(u=u, v=repr(alias)))
 
 
 def run(ctx, dn):
